@@ -10,6 +10,24 @@ CHECKS = {
  'C01': ("proptest generated-input search (58 types x 29 functions x stratified real parts x arbitrary parts) against an independent reference Taylor algebra with running rounding bound",
          "Random/structured exploration with a sound numerical oracle: every part of f(x) is compared with the multivariate Faa di Bruno composition computed in an independent algebra, tolerance 32*u*e (measured worst ratio on the tree ~10). Finds wrong sign/coefficient/dropped/swapped term in any closed form or chain rule on any registered type; cannot prove absence.",
          "trusts libm leaf accuracy (~1 ulp), the ndv-oracle algebra (self-tested against mpmath tables), tolerance model; bounded to registered types (dims<=6, nesting<=3, order<=4)", "4-C01"),
+ 'C02': ("proptest search on dyadic grids with a bit-exact reference algebra (every + and * verified rounding-free by TwoSum/FMA residuals), exhaustive tensor grids for the 5 scalar f64 types, plus rounding-regime comparison with 32*u*e",
+         "Exact differential oracle: on grid operands the library result must equal the independent truncated-Taylor algebra bit for bit in every part (incl. mixed parts, all presence patterns); complete tensor grids with deg+1 points per operand part are enumerated for Dual, Dual2, Dual3, HyperDual, HyperHyperDual (product, quotient, powi, recip), so agreement determines the polynomial/rational map there; vector/nested types are sampled (Schwartz-Zippel).",
+         "assumes any algebraically correct evaluation order is rounding-free on the grid (<= 4 significant bits per part); vector and nested types sampled, not enumerated", "4-C02"),
+ 'C03': ("proptest generation of SSA expression DAGs (52 opcodes, sharing, constants, all operator forms) with a domain-repairing resolver; mirror interpreter in the reference algebra with running rounding bound; every node compared",
+         "Random program exploration with a sound oracle: each node of each generated program is compared part by part with the same program evaluated in the independent reference algebra (tolerance 32*u*e, e = first-order rounding bound of that program at that point), on all 58 registered types with arbitrary (non-unit, absent) input parts.",
+         "program size <= 12 (quick) / 32 (thorough) nodes, |values| <= 1e6, fixed margins from singularities; e-model assumptions of DESIGN 3.3/3.4", "4-C03"),
+ 'C09': ("proptest over exponent strata (special cases, i32-overflow thresholds, +-2^k up to 2^30, values within ulps of 0/1/2, negative, non-integer, large) with bases x=+-exp(t/n); reference generalized binomial Taylor data; metamorphic relations between powi/powf/powd/exp-ln/products/roots",
+         "Stratified exploration with a numerical oracle (32*u*e with |n| units for repeated squaring) plus explicit cross-agreement of the three power functions, repeated multiplication/division, exp(n ln x), sqrt/cbrt/recip; fixed cases pin the i32 overflow thresholds.",
+         "relative errors below |n|u for huge integer exponents are invisible; libm pow accurate to 1 ulp", "4-C09"),
+ 'C10': ("complete enumeration of the finite (function, special point, +-3 float neighbours) table on all scalar and nested static types with generic parts, plus proptest-generated parts/presence patterns on every type; reference Taylor data at the special point",
+         "The special-point table is finite and enumerated completely per run (exhaustive sub-claim); every part must be finite and within 32*u*e of the exact Taylor data (powi/powf at 0 incl. denormal neighbours, sph/cyl Bessel at 0 and their switch points, atan2 on both axes, exp_m1/ln_1p at 0).",
+         "results below the absolute floor 1e-270 (f64) / 1e-30 (f32) are not distinguished from 0; vector types sampled", "4-C10"),
+ 'C14': ("proptest over x in [-60,60] (strata: 0, tiny, +-3 floats around 1e-5 / 1 / 5 and the zeros of J0,J1,J2, rational and asymptotic branch, both signs) on all f64 Copy types up to 4th order; Miller-recurrence reference with derivative recurrences (validated against mpmath); parity relation",
+         "Stratified exploration with an independent high-accuracy reference: value to 16u(1+|J|), derivative parts of order k to 2^(5+3k) u*sum|terms| (measured head-room >= 10x), parity of every part; catches wrong branch thresholds, coefficients beyond the schedule, sign/parity errors and lost higher-order parts.",
+         "coefficient perturbations below the per-order schedule invisible; reference accurate to a few u", "4-C14"),
+ 'C15': ("proptest over x in [-50,50] (0, below eps down to 1e-300, +-3 floats around eps and 1, small, moderate, large, both signs) on all 58 types over f32/f64 plus a deterministic sweep of the plain-float instances; re-expanded Taylor series / closed-form series-arithmetic reference; real-part-vs-plain-float and parity relations",
+         "Stratified exploration with an independent reference (32*u*e, e from the well-conditioned evaluation, so the closed forms' 1/x^k amplification is not granted), agreement of the dual real part with the plain float implementation, parity with negated parts.",
+         "reference validated against mpmath tables (ndv selftest)", "4-C15"),
 }
 checks = []
 for i in ids:
